@@ -21,6 +21,8 @@ VALENCE = {
     ('S', 0): [2, 4, 6], ('F', 0): [1], ('Cl', 0): [1], ('Br', 0): [1], ('I', 0): [1],
     ('N', 1): [4], ('O', 1): [3], ('O', -1): [1], ('N', -1): [2], ('C', -1): [3], ('C', 1): [3],
     ('S', -1): [1], ('S', 1): [3, 5], ('P', 1): [4], ('Na', 1): [0], ('H', 0): [1],
+    # heavier main-group elements of the same groups (written as bracket atoms)
+    ('Si', 0): [4], ('Ge', 0): [4], ('Se', 0): [2, 4, 6], ('As', 0): [3, 5],
 }
 MASS = {'H': 1.008, 'C': 12.011, 'N': 14.007, 'O': 15.999, 'S': 32.06, 'P': 30.973762,
         'F': 18.998403163, 'Cl': 35.45, 'Br': 79.904, 'Na': 22.98976928}
